@@ -84,7 +84,7 @@ class UniqFilter:
             for obj in left:
                 try:
                     item = obj[key]
-                except KeyError:
+                except (KeyError, IndexError):
                     item = MISSING
                 except TypeError as err:
                     raise LiquidTypeError(
